@@ -67,6 +67,7 @@ func init() {
 			// a few failing executions (mostly panics, mostly not recovered by
 			// dig): what later Invokes inject must still obey the rule
 			k.NoFaults, k.PFault, k.PPanic = false, 6, 65
+			k.PSide = 8
 			return GenCase(t, scale(k, thorough))
 		},
 		Check: func(c *Case, st *Stats) *Failure {
